@@ -56,7 +56,7 @@ PROPS = {
             "assumptions": ["'as of one single LMDB transaction' rests on LMDB snapshot isolation (trusted): the dump is a function of one environment value",
                             "values up to a few hundred bytes in the correspondence; megabyte values are not exercised"],
             "trusted_base": [LMDB_TRUST, "modelled: syncer/send.go SendOnce transaction body, readDBI, ReadDBINames order; names/metadata compared by the oracle, name format is C15"]},
-    "C10": {"seed": 10, "areas": [("instance", 300), ("syncloop", 96), ("shadow", 300), ("retention", 60)], "thorough_mult": 6,
+    "C10": {"seed": 10, "areas": [("instance", 300), ("syncloop", 96), ("shadow", 300), ("retention", 60), ("crash", 30)], "thorough_mult": 6,
             "assumptions": ["tomb sweeper disabled (a sweeper transaction is a local writer and triggers a snapshot by design, config.go:254-256)",
                             "fleet-level bound follows from the per-instance statements: after the last application write each instance uploads at most once more per load that found a local change"],
             "trusted_base": [LMDB_TRUST, "Instance/Ids.v abstracts the loop's id bookkeeping; it is evaluated next to the executable machine (Instance/SyncLoop.v), which is compared with the real syncLoop through the verif yield hooks"]},
@@ -74,10 +74,10 @@ PROPS = {
                             "quiescent = every instance uploaded after its last write and merged such a snapshot of every instance; C09 supplies the first half on the real loop",
                             "the refinement from LoadOnce/SendOnce to the Fleet steps is proved per DBI (C01_refine_load / C01_refine_send) and validated end to end on real fleets by the correspondence (native mode) and the convergence oracle (both modes)"],
             "trusted_base": [LMDB_TRUST, "modelled: Fleet (logical stores), the per-DBI refinement of strategy.Update + NativeIterator.Merge, dump entries"]},
-    "C04": {"seed": 4, "areas": [("fleet", 120), ("merge", 300), ("retention", 60), ("instance", 300), ("sweeper", 150)], "thorough_mult": 6,
+    "C04": {"seed": 4, "areas": [("fleet", 120), ("merge", 300), ("retention", 60), ("instance", 300), ("sweeper", 150), ("syncloop", 100)], "thorough_mult": 6,
             "assumptions": ["retention part (C04_retention.v): 0 <= RetentionDuration() < 2^63 ns, clock values in 1970..2262; RetentionDuration() (a float32 product) is an input computed by Go; negative / overflowing retention_days is outside the claim (the configuration is not validated by /repo)"],
             "trusted_base": [LMDB_TRUST, "modelled: NativeIterator.Merge stale-marker rule, Retention arithmetic, Fleet joins, capture/dump theorems of C11/C06"]},
-    "C05": {"seed": 5, "areas": [("crash", 60), ("cleaner", 150), ("names", 300)], "thorough_mult": 5,
+    "C05": {"seed": 5, "areas": [("crash", 60), ("cleaner", 150), ("names", 300), ("instance", 160)], "thorough_mult": 5,
             "assumptions": ["tomb sweeper disabled (the property excepts markers past retention)",
                             "snapshots are decodable (corrupt blobs: C08/C16); sequence numbers = global upload order (names sort chronologically: C15; clocks of different instances are assumed not to run backwards relative to each other by more than the cleaner's intervals, as the cleaner itself assumes)",
                             "the model's guards are those of the code: Upload only when the own instance is not waited for (syncLoop), cleaner rules (C12 theorems + cleaner correspondence area); the real event logs are replayed against an executable transcription of the guards (Corr/Run_crash.v)"],
